@@ -408,7 +408,11 @@ func (w *c07World) worker(client int, rng *rand.Rand, n int) {
 			kind = cache.RAW
 		}
 		key := w.keys[rng.IntN(len(w.keys))]
-		switch x := rng.IntN(20); {
+		x := rng.IntN(20)
+		if client >= 8 && x < 11 {
+			x = 11 + rng.IntN(9) // register traffic comes from at most 8 clients: bounds the linearizability search, the other clients still interleave
+		}
+		switch {
 		case x < 5:
 			w.regPut(client, rng, kind, key)
 		case x < 11:
@@ -601,7 +605,7 @@ func runC07History(r *lib.Run, hc *lib.HookCtl, pool *lib.DirPool, o c07Opts) {
 	if os.Getenv("C07_CHILD") != "" {
 		return
 	}
-	res, info := porcupine.CheckOperationsVerbose(c07Model(o.pressure || o.damage), w.hist.ops, 60*time.Second)
+	res, info := porcupine.CheckOperationsVerbose(c07Model(o.pressure || o.damage), w.hist.ops, 180*time.Second)
 	r.CountN("porcupine.operations", int64(len(w.hist.ops)))
 	r.Count("porcupine." + string(res))
 	switch res {
@@ -617,7 +621,9 @@ func runC07History(r *lib.Run, hc *lib.HookCtl, pool *lib.DirPool, o c07Opts) {
 		}
 		r.Violation("C07:not-linearizable:pressure="+fmt.Sprint(o.pressure), "per-key history of uploads and reads is not linearizable against a register (stale, lost or invented value)", w.detail(ops))
 	case porcupine.Unknown:
-		r.Inconclusive("porcupine timed out on " + o.caseID)
+		// this history is left undecided (never counted as held); the run as a whole is inconclusive only if that happens often
+		r.Count("porcupine.undecided_histories")
+		r.Extra("porcupine_timeout_"+o.caseID, fmt.Sprintf("%d operations, %d clients", len(w.hist.ops), o.workers))
 	}
 }
 
@@ -1236,6 +1242,11 @@ func runGateScenarios(r *lib.Run, hc *lib.HookCtl, pool *lib.DirPool, rng *rand.
 }
 
 func runC07Histories(r *lib.Run, hc *lib.HookCtl, pool *lib.DirPool, rng *rand.Rand, nHist int, child bool) {
+	defer func() {
+		if u := r.Counter("porcupine.undecided_histories"); u*50 > int64(nHist) {
+			r.Inconclusive(fmt.Sprintf("porcupine timed out on %d of %d histories", u, nHist))
+		}
+	}()
 	// random concurrent histories
 	for i := 0; i < nHist && r.Violations() <= 12; i++ {
 		o := c07Opts{
